@@ -176,7 +176,39 @@ fn check_enc(ms: &[Mapping], lines: bool) -> Option<String> {
     }
   }
 }
+/// C12's decoder clause is about WELL-FORMED strings: only base64 characters, ',' and ';'; every segment has 0, 1, 4 or 5
+/// fields; VLQs of at most 12 digits (redundant continuation digits are allowed); running values stay in [0, 2^31).
+/// What the decoder does on anything else is not constrained by the property (only by C17: no panic).
+fn well_formed(s: &str) -> bool {
+  let mut d: [i64; 5] = [0, 0, 1, 0, 0];
+  for line in s.split(';') {
+    d[0] = 0;
+    for seg in line.split(',') {
+      let mut fields = 0usize; let mut digits = 0usize; let mut val: i64 = 0; let mut open = false;
+      for &c in seg.as_bytes() {
+        let v = tbl(c);
+        if v >= 0x40 { return false; }
+        digits += 1;
+        if digits > 12 { return false; }
+        val |= ((v & 0x1f) as i64) << (5 * (digits - 1));
+        open = true;
+        if v & 0x20 == 0 {
+          let fv = if val & 1 != 0 { -(val >> 1) } else { val >> 1 };
+          if fields >= 5 { return false; }
+          d[fields] += fv;
+          if d[fields] < 0 || d[fields] >= (1 << 31) { return false; }
+          fields += 1; digits = 0; val = 0; open = false;
+        }
+      }
+      if open { return false; }
+      if !(fields == 0 || fields == 1 || fields == 4 || fields == 5) { return false; }
+    }
+  }
+  true
+}
+
 fn check_dec(s: &str) -> Option<String> {
+  if crit() == "bytes" && !well_formed(s) { return None; }
   let want = ref_decode(s.as_bytes());
   match real_decode(s) {
     Err(p) => Some(format!("real decoder panicked ({p}); the format defines [{}]", fmt_ms(&want))),
@@ -197,7 +229,9 @@ fn gen_ms(r: &mut Rng, maxlen: u64) -> Vec<Mapping> {
     // the panic criterion (C17) ranges over all of u32 ("wild" maps); the byte-level spec only over the C12 domain (< 2^30)
     let wild = crit() == "panic";
     let v = |r: &mut Rng| if small { r.below(4) as u32 } else if wild && r.below(3) == 0 { r.pick(&[u32::MAX, u32::MAX - 1, 1 << 31, (1 << 31) - 1, 1 << 30]) } else { r.pick(&VALS) };
-    if r.below(3) != 0 { col = col.saturating_add(v(r) % 50).min((1 << 30) - 1); } else { col = v(r); }
+    // C12/C11 quantify over sequences sorted by generated position: within a line the column never goes back
+    // (the panic criterion of C17 also tries unsorted columns)
+    if r.below(3) != 0 || !wild { col = col.saturating_add(v(r) % 50).min((1 << 30) - 1); } else { col = v(r); }
     let original = match r.below(4) {
       0 => None,
       1 => Some(OriginalLocation { source_index: v(r), original_line: v(r).max(1), original_column: v(r), name_index: Some(v(r)) }),
@@ -231,6 +265,7 @@ pub fn search_enc(args: &[String], lines: bool) -> i32 {
     if let Some(d) = check_enc(&one, lines) { best = Some((one, d)); break 'outer; }
     for b in 0..segs.len() {
       if segs[b].generated_line < segs[a].generated_line { continue; }
+      if segs[b].generated_line == segs[a].generated_line && segs[b].generated_column < segs[a].generated_column { continue; }
       let two = vec![segs[a].clone(), segs[b].clone()];
       tried += 1;
       if let Some(d) = check_enc(&two, lines) { best = Some((two, d)); break 'outer; }
@@ -305,7 +340,20 @@ pub fn search_dec(args: &[String]) -> i32 {
     let all: Vec<u8> = (b'A'..=b'Z').chain(b'a'..=b'z').chain(b'0'..=b'9').chain([b'+', b'/', b',', b';', b' ', b'\n']).collect();
     for i in 0..budget {
       let n = 1 + r.below(if i % 8 == 0 { 40 } else { 12 });
-      let s: String = (0..n).map(|_| match r.below(10) { 0 => ',', 1 => ';', 2..=4 => r.pick(b"ghijklmnopqrstuvwxyz0123456789+/") as char, _ => r.pick(&all) as char }).collect();
+      let s: String = if i % 2 == 0 {
+        // grammar-directed: segments of 0/1/4/5 VLQs, each with 0-3 continuation digits (also redundant ones)
+        let mut t = String::new();
+        for k in 0..(1 + r.below(6)) {
+          if k > 0 { t.push(if r.below(4) == 0 { ';' } else { ',' }); }
+          for _ in 0..r.pick(&[0usize, 1, 1, 4, 4, 5]) {
+            for _ in 0..r.below(4) { t.push(r.pick(b"ghijklmnopqrstuvwxyz0123456789+/") as char); }
+            t.push(r.pick(b"ABCDEFGHIJKLMNOPQRSTUVWXYZabcdef") as char);
+          }
+        }
+        t
+      } else {
+        (0..n).map(|_| match r.below(10) { 0 => ',', 1 => ';', 2..=4 => r.pick(b"ghijklmnopqrstuvwxyz0123456789+/") as char, _ => r.pick(&all) as char }).collect()
+      };
       tried += 1;
       if let Some(d) = check_dec(&s) { found = Some((s, d)); break; }
     }
